@@ -78,7 +78,27 @@ class _TProc(T):
 
 
 TResult, TWorker, TCallback, TSubmitCb, TExcClasses, TProc = _TResult(), _TWorker(), _TCallback(), _TSubmitCb(), _TExcClasses(), _TProc()
-InItem = TRec("QInItem", {"index": TInt, "input": TVal})
+
+
+class _Rec:
+    """Record datatype with its *own* constructor name (TRec names every constructor `mk`: two records with the same field sorts
+    would be ambiguous after the SMT-LIB round trip)."""
+
+    def __init__(self, name, fields):
+        self.fields = dict(fields)
+        dt = z3.Datatype(name)
+        dt.declare("mk_" + name, *[(f"{name}_{f}", t.sort()) for f, t in fields.items()])
+        self.dt = dt.create()
+        self.dt.mk = getattr(self.dt, "mk_" + name)
+
+    def sort(self):
+        return self.dt
+
+    def accessor(self, f):
+        return self.dt.accessor(0, list(self.fields).index(f))
+
+
+InItem = _Rec("QInItem", {"index": TInt, "input": TVal})
 
 
 class _InSlot:
@@ -96,8 +116,8 @@ class _InSlot:
 
 
 OptInItem = _InSlot()
-OutItem = TRec("QOutItem", {"index": TInt, "output": TResult})
-CbRec = TRec("CbRec", {"fn": TCallback, "index": TInt, "output": TResult})
+OutItem = _Rec("QOutItem", {"index": TInt, "output": TResult})
+CbRec = _Rec("CbRec", {"fn": TCallback, "index": TInt, "output": TResult})
 
 IntArr = z3.ArraySort(z3.IntSort(), z3.IntSort())
 BoolArr = z3.ArraySort(z3.IntSort(), z3.BoolSort())
